@@ -50,7 +50,7 @@ def build():
     first_of = lib.fn("first_of_class", [SCLS, BOOL, SR], OREF)
     first_of.rule("first-empty", 2, "empty")(lambda a, p: OREF.none().term)
     first_of.rule("first-cons", 2, "cons")(lambda a, p: z3.If(classtest(a[0], a[1], p[0]), OREF.some(REF.wrap(p[0])).term, first_of.t(a[0], a[1], p[1])))
-    first_of.rule("first-concat", 2, "concat", "lemma")(lambda a, p: z3.If(OREF.is_none(first_of.t(a[0], a[1], p[0])), first_of.t(a[0], a[1], p[1]), first_of.t(a[0], a[1], p[0])))
+    first_of.rule("first_of_class-concat", 2, "concat", "lemma")(lambda a, p: z3.If(OREF.is_none(first_of.t(a[0], a[1], p[0])), first_of.t(a[0], a[1], p[1]), first_of.t(a[0], a[1], p[0])))
     # membership / first position in a node sequence (identity of the elements), with their unfolding along a chain as proved lemma rules
     mem = lib.fn("seq_mem", [SR, REF], BOOL)
     idx = lib.fn("seq_index", [SR, REF], INT)
